@@ -3,6 +3,8 @@
 package js_parser
 
 import (
+	"regexp"
+
 	"github.com/evanw/esbuild/internal/compat"
 	"github.com/evanw/esbuild/internal/config"
 	"github.com/evanw/esbuild/internal/js_ast"
@@ -12,6 +14,17 @@ import (
 // K09a: the AST cache key. JSCache.Parse reuses a cached AST when
 // entry.options.Equal(&options); so Equal must imply equality of every
 // option the parser reads (anything else is a stale-cache hazard).
+
+var hRegexpA = regexp.MustCompile("^_")
+var hRegexpA2 = regexp.MustCompile("^_") // same pattern, different object
+var hRegexpB = regexp.MustCompile("_$")
+
+func hSameRe(a, b *regexp.Regexp) bool {
+	if a == nil || b == nil {
+		return a == b
+	}
+	return a == b || (a == hRegexpA && b == hRegexpA2) || (a == hRegexpA2 && b == hRegexpA)
+}
 
 func hStr3() string { return []string{"", "a", "b"}[vChoose(3)] }
 
@@ -112,7 +125,7 @@ func hOptions() Options {
 func vK09aEqual() {
 	a := hOptions()
 	b := a
-	field := vChoose(12)
+	field := vChoose(13)
 	switch field {
 	case 0:
 		b.optionsThatSupportStructuralEquality = hStructural()
@@ -162,6 +175,10 @@ func vK09aEqual() {
 		}
 	case 11:
 		// nothing differs
+	case 12:
+		res := []*regexp.Regexp{nil, hRegexpA, hRegexpB, hRegexpA2}
+		a.mangleProps, b.mangleProps = res[vChoose(4)], res[vChoose(4)]
+		a.reserveProps, b.reserveProps = res[vChoose(4)], res[vChoose(4)]
 	}
 	if a.Equal(&b) {
 		msg := []string{
@@ -177,11 +194,13 @@ func vK09aEqual() {
 			"Equal => injectedFiles agree",
 			"Equal => injectedFiles[].IsCopyLoader agrees (read by the parser: stale AST otherwise)",
 			"Equal is reflexive on copies",
+			"Equal => mangleProps / reserveProps are the same pattern",
 		}[field]
 		same := a.optionsThatSupportStructuralEquality == b.optionsThatSupportStructuralEquality &&
 			a.jsx.Parse == b.jsx.Parse && hDefineExprEq(a.jsx.Factory, b.jsx.Factory) && hDefineExprEq(a.jsx.Fragment, b.jsx.Fragment) &&
 			a.jsx.Preserve == b.jsx.Preserve && a.jsx.AutomaticRuntime == b.jsx.AutomaticRuntime &&
 			a.jsx.ImportSource == b.jsx.ImportSource && a.jsx.Development == b.jsx.Development && a.jsx.SideEffects == b.jsx.SideEffects
+		same = same && hSameRe(a.mangleProps, b.mangleProps) && hSameRe(a.reserveProps, b.reserveProps)
 		if (a.tsAlwaysStrict == nil) != (b.tsAlwaysStrict == nil) {
 			same = false
 		} else if a.tsAlwaysStrict != nil {
@@ -210,6 +229,9 @@ func vK09aEqual() {
 		vAssert(same, msg)
 	} else {
 		vAssert(field != 11, "Equal is reflexive on copies")
+		if field == 12 {
+			vAssert(!(hSameRe(a.mangleProps, b.mangleProps) && hSameRe(a.reserveProps, b.reserveProps)), "equal patterns compare equal (no needless cache miss)")
+		}
 	}
 	vReach("end")
 }
